@@ -190,7 +190,7 @@ def apply_risky_c03(spec, rng, risky):
             if len(c['nets']) >= 2 and bus:
                 n = rng.choice(bus)
                 other = rng.choice([m for m in c['nets'] if m is not n])
-                other['name'] = n['name'][:1] + rng.choice(['*', '?' * max(0, len(n['name']) - 1)])
+                other['name'] = n['name'][:1] + rng.choice(['*', '?' * max(1, len(n['name']) - 1)])
                 if other['width'] == 1 and not other['array'] and rng.random() < 0.7:
                     other['width'] = 2
                     other['array'] = True
